@@ -59,7 +59,11 @@ type cmdReply struct {
 	ack  chan struct{}
 }
 
-var timeout = 80 * time.Millisecond
+var timeout = 120 * time.Millisecond
+
+// stale: the run fell behind real time (a Result() call had been waiting for more than half its timeout when the next
+// operation was due): it is not a run of the behaviour any more and is repeated
+const stale = "STALE"
 
 type result struct {
 	val     any
@@ -105,7 +109,15 @@ func runCase(c *Case) (Seen, string) {
 	done := make([]chan result, n+1)
 	nrep := make([]int, n+1)
 	var stuck chan struct{}
+	tstart := map[int]time.Time{} // Result() calls the behaviour has waiting
 	for _, op := range c.Hist {
+		if op.Op != "timeout" {
+			for _, t0 := range tstart {
+				if time.Since(t0) > timeout/2 {
+					return seen, stale
+				}
+			}
+		}
 		switch op.Op {
 		case "req":
 			resp[op.R] = e.Request(responder, request{op.R}, timeout)
@@ -136,6 +148,7 @@ func runCase(c *Case) (Seen, string) {
 				done[r] <- res
 			case <-time.After(3 * time.Millisecond):
 			}
+			tstart[r] = time.Now()
 			if op.Blk && stuck != nil {
 				select {
 				case <-stuck:
@@ -145,10 +158,14 @@ func runCase(c *Case) (Seen, string) {
 				}
 			}
 		case "timeout":
+		case "elapse":
+			// more than the timeout passes between the requests and their collection; the replies are in already
+			time.Sleep(timeout + timeout/2)
 		}
 		// "once Result() has returned": the calls this operation completes have returned (and unregistered their
 		// PID) before the next operation is issued
 		for _, r := range op.Ret {
+			delete(tstart, r)
 			if done[r] == nil {
 				return seen, fmt.Sprintf("harness: history completes Result() of request %d before it was called", r)
 			}
@@ -371,6 +388,12 @@ func main() {
 			for i := range idx {
 				c := &cases[i]
 				seen, problem := runCase(c)
+				for try := 0; problem == stale && try < 8; try++ {
+					seen, problem = runCase(c)
+				}
+				if problem == stale {
+					problem = "harness: the machine is too slow to run this behaviour in real time (8 attempts)"
+				}
 				what := judge(c, seen, problem)
 				mu.Lock()
 				rep.Ops += len(c.Hist)
